@@ -32,6 +32,8 @@ type parseInput struct {
 
 func init() { register("parse", driveParse) }
 
+var tokTokens = []string{"*", "${x}", "...${x}", "a", " ", "\"", "'", "\\", "|", ".", ":", ";", "->", "(", ")", "[", "]", "{", "}", "@x", "&", "-", "#", "$", "null", "_", "é", "0"}
+
 var rawAlphabet = []byte{0x00, 0x0A, 0x22, 0x7B, 0x7D, 0x5C, 0xC3, 0xFF, 0xFE, 0x61, 0x3A, 0x2D, 0x3E, 0x27, 0x7C, 0x23, 0xF0, 0x9F, 0x98, 0x80, 0x20, 0x2E, 0x5B, 0x5D, 0x28, 0x29, 0x24, 0x2A, 0x26, 0x40, 0x3B}
 
 func parseInputBytes(in parseInput) []byte {
@@ -73,6 +75,26 @@ func parseInputBytes(in parseInput) []byte {
 			s += strings.Repeat("}", r.Intn(depth+1))
 		}
 		return []byte(s)
+	case "tok":
+		// systematic token rows: one line per last token, so that every pair (rows 0-83) and every triple of
+		// tokens is parsed next to each other in a key, a value and a connection label
+		T := tokTokens
+		rows := len(T)*3 + len(T)*len(T)*3
+		j := int((in.Seed-1)/11)*3 + int((in.Seed-1)%11) - 8
+		j = (j * 1103) % rows // spread pair rows and triple rows over the slices of the quick tier
+		ctx := []string{"k%d: %s", "%[2]s: v%[1]d", "a -> b%d: %s"}
+		var prefix, pat string
+		if j < len(T)*3 {
+			prefix, pat = T[j%len(T)], ctx[j/len(T)]
+		} else {
+			k := j - len(T)*3
+			prefix, pat = T[k%len(T)]+T[(k/len(T))%len(T)], ctx[(k/(len(T)*len(T)))%3]
+		}
+		var sb strings.Builder
+		for i, t := range T {
+			fmt.Fprintf(&sb, pat+"\n", i, prefix+t)
+		}
+		return []byte(sb.String())
 	case "key":
 		parts := []string{"a", "b.c", "\"q.r\"", "'s'", "x y", "(a -> b)[0]", "a -> b", "a.\"b\".c", "é", "😀", "*", "**", "a*b", "&x", "!&y", "$v", "@imp", "...@f", "null", "_", "_.x", "a:b", "a;b", "[1]", "{k: v}", "|md x|", "1", "-", "->", "\\n", "a.", ".a", ""}
 		s := parts[r.Intn(len(parts))]
@@ -96,14 +118,14 @@ func driveParse(c *Ctx) error {
 		}
 		inputs = []parseInput{in}
 	} else {
-		n, space := 600, 6000
+		n, space := 900, 9900
 		fmt.Sscanf(c.Args["n"], "%d", &n)
 		lo, hi := 0, space
 		if !c.Thorough() {
 			lo = int((c.Seed*7919)%int64(space/n)) * n
 			hi = lo + n
 		}
-		kinds := []string{"gen", "mut", "bytes", "bytes", "nest", "key", "mut", "key"}
+		kinds := []string{"gen", "mut", "bytes", "bytes", "nest", "key", "mut", "key", "tok", "tok", "tok"}
 		for i := lo; i < hi; i++ {
 			inputs = append(inputs, parseInput{Kind: kinds[i%len(kinds)], Seed: int64(i) + 1})
 		}
